@@ -31,7 +31,7 @@ na = [{"property_id": pid, "reason": props.NOT_APPLICABLE.get(pid, "check not bu
       for pid in ALL if pid not in props.PROPS]
 manifest = {
     "version": 1,
-    "setup_cmd": "cd /verif/harness && CARGO_NET_OFFLINE=true cargo build --release --offline",
+    "setup_cmd": "cd /verif/harness && CARGO_NET_OFFLINE=true cargo build --release --offline && cd miri_c14 && CARGO_NET_OFFLINE=true MIRIFLAGS='-Zmiri-tree-borrows -Zmiri-ignore-leaks -Zmiri-disable-isolation -Zmiri-permissive-provenance' cargo +nightly miri run --offline -- 2 2",
     "hooks": {
         "guard": "cargo feature `verif-hooks` of the prio crate (off by default)",
         "enable": "the harness crate /verif/harness path-depends on /repo with features experimental,test-util,multithreaded,verif-hooks; every check starts with `cargo build --release --offline` there",
